@@ -538,6 +538,155 @@ theorem tamper_third_segment_hop_stopped_partial (mac : MacFn) (net : Net) (now 
     htam hr hr' fuel _
   exact ⟨o, _, ho⟩
 
+/-- `xover_tampered_rejected` for any alteration of the pair (info field of the new segment, its
+    first hop field) that `tamper_hop_rejected` covers — in particular a changed SegID or timestamp
+    of the new segment's info field with the hop field left alone -/
+theorem xover_tampered_rejected_gen (mac : MacFn) (cfg : RCfg) (now i : Nat) (sl : Bool)
+    (hinj : MacInj mac cfg.key) (before : List Seg) (info1 : Info) (done : List Hop) (h1 : Hop)
+    (i2 i2' : Info) (h2 h2' : Hop) (t2 : List Hop) (aft : List Seg)
+    (hpe : info1.peer = false) (hgen : macOk mac cfg.key i2 h2 = true)
+    (hr : InRange i2 h2) (hr' : InRange i2' h2')
+    (hne : protectedOf i2' h2' ≠ protectedOf i2 h2)
+    (hone : h2'.mac = h2.mac ∨ inputOf i2' h2' = inputOf i2 h2) :
+    (routerStep mac cfg now (.ext i) sl false
+      ⟨before, info1, done, h1, [], ⟨i2', h2' :: t2⟩ :: aft⟩).accepting = false := by
+  apply Bool.eq_false_iff.2
+  intro hacc
+  obtain ⟨sid, hsid⟩ := ingUpd_setSeg ⟨before, info1, done, h1, [], ⟨i2', h2' :: t2⟩ :: aft⟩ (.ext i) false
+  obtain ⟨c2, hinc, hmac⟩ := xover_next_checked mac cfg now _ sl _ hacc (by simp [determinePeer, hpe])
+    (by rw [hsid]; rfl)
+  rw [hsid] at hinc
+  have hc2 : c2.info = i2' ∧ c2.cur = h2' := by
+    simp only [setSeg, Cursor.incPath, Option.some.injEq] at hinc
+    subst hinc; exact ⟨rfl, rfl⟩
+  rw [hc2.1, hc2.2] at hmac
+  have := tamper_hop_rejected mac cfg.key hinj i2 i2' h2 h2' hr hr' hgen hne hone
+  rw [this] at hmac
+  cases hmac
+
+/-- **run level, the INFO FIELD of the second segment** (SegID or timestamp altered, hop fields
+    left alone; `_partial`: one border router per AS): the first hop field of the second segment
+    is validated at the segment change under the info field as the packet carries it, so the
+    packet is stopped at the joint AS. -/
+theorem tamper_second_info_stopped_partial (mac : MacFn) (net : Net) (now src dst : Nat)
+    (hUp : AllUp net) (hSR : SingleRouter net)
+    (core1 cd1 : Bool) (ts1 seg10 : Nat) (e10 : ASE) (mid1 : List ASE) (last1 : ASE)
+    (cd2 : Bool) (ts2 β2 ts2' β2' : Nat) (e20 : ASE) (t2 : List Hop) (aft : List Seg)
+    (ha : ∀ s ∈ aft, s.hops.length ≠ 1) (ht2 : t2 ≠ [])
+    (hinj : MacInj mac (net last1.ia).key)
+    (hFL1 : FL mac net core1 cd1 ts1 seg10 (e10 :: (mid1 ++ [last1])))
+    (hsrc : src = e10.ia) (hsd : src ≠ dst)
+    (hmid1 : ∀ e ∈ mid1, e.ia ≠ src ∧ e.ia ≠ dst ∧ expired now ts1 e.hop.exp = false)
+    (hexp0 : expired now ts1 e10.hop.exp = false)
+    (hjoint : last1.ia = e20.ia) (hld : last1.ia ≠ dst)
+    (hm2 : MacAt mac net ts2 β2 e20)
+    (htam : (β2', ts2') ≠ (β2, ts2))
+    (hr : InRange ⟨cd2, false, β2, ts2⟩ (hopOf e20.hop))
+    (hr' : InRange ⟨cd2, false, β2', ts2'⟩ (hopOf e20.hop))
+    (fuel : Nat) :
+    ∃ o tr, run mac net now src dst (fuel + 2 + mid1.length) src 0 .host
+        ⟨[], ⟨cd1, false, usedAt cd1 seg10 e10, ts1⟩, [], hopOf e10.hop,
+          (mid1.map fun e => hopOf e.hop) ++ [hopOf last1.hop],
+          ⟨⟨cd2, false, β2', ts2'⟩, hopOf e20.hop :: t2⟩ :: aft⟩ [] =
+      .stopped last1.ia 0 (.ext (inF cd1 last1)) o tr := by
+  have ha' : ∀ s ∈ (⟨⟨cd2, false, β2', ts2'⟩, hopOf e20.hop :: t2⟩ : Seg) :: aft, s.hops.length ≠ 1 := by
+    intro s hs
+    simp only [List.mem_cons] at hs
+    rcases hs with rfl | hs
+    · cases t2 <;> simp_all
+    · exact ha s hs
+  have hpre := segment_prefix_run_after mac net now src dst hUp hSR core1 cd1 ts1 seg10 e10 mid1 last1
+    (hopOf last1.hop) [] _ ha' hFL1 hsrc hsd hmid1 hexp0 (fuel + 1)
+  rw [show fuel + 2 + mid1.length = fuel + 1 + 1 + mid1.length by omega, hpre]
+  have hdl : (last1.ia == dst) = false := by simp [hld]
+  have hrej : (routerStep mac ⟨(net last1.ia).key, 0, (net last1.ia).ifaces⟩ now (.ext (inF cd1 last1))
+      (last1.ia == src) (last1.ia == dst)
+      ⟨[], ⟨cd1, false, Scion.SegID.extractBeta (Scion.SegID.updateSegID seg10 (pfx e10.hop.mac)) (sig mid1), ts1⟩,
+        hopOf e10.hop :: mid1.map (fun e => hopOf e.hop), hopOf last1.hop, [],
+        ⟨⟨cd2, false, β2', ts2'⟩, hopOf e20.hop :: t2⟩ :: aft⟩).accepting = false := by
+    rw [hdl]
+    exact xover_tampered_rejected_gen mac ⟨(net last1.ia).key, 0, (net last1.ia).ifaces⟩ now _ _ hinj [] _ _ _
+      ⟨cd2, false, β2, ts2⟩ ⟨cd2, false, β2', ts2'⟩ (hopOf e20.hop) (hopOf e20.hop) t2 aft rfl
+      (by rw [hjoint]; exact macOk_of_macAt mac net ts2 β2 e20 cd2 false hm2) hr hr'
+      (by
+        intro heq
+        simp only [protectedOf, Prod.mk.injEq] at heq
+        exact htam (by simp [heq.1, heq.2.1]))
+      (Or.inl rfl)
+  obtain ⟨o, ho⟩ := run_stops mac net now src dst fuel last1.ia 0 (.ext (inF cd1 last1)) _ _ hrej
+  exact ⟨o, _, ho⟩
+
+/-- **run level, the first hop field or the info field of the THIRD segment** (validated at the
+    second segment change by the last AS of the second segment; `_partial`: one border router per
+    AS).  `i3`/`h3` are the genuine info field and first hop field, `i3'`/`h3'` what the packet
+    carries: any alteration covered by `tamper_hop_rejected` (hop field altered as in
+    `HopTamper true`, or SegID / timestamp of the info field altered). -/
+theorem tamper_third_xover_stopped_partial (mac : MacFn) (net : Net) (now src dst : Nat)
+    (hUp : AllUp net) (hSR : SingleRouter net)
+    (core1 cd1 : Bool) (ts1 seg10 : Nat) (e10 : ASE) (mid1 : List ASE) (last1 : ASE)
+    (core2 cd2 : Bool) (ts2 seg20 : Nat) (e20 : ASE) (mid2 : List ASE) (last2 : ASE)
+    (i3 i3' : Info) (e30 : ASE) (h3' : Hop) (t3 : List Hop) (aft : List Seg)
+    (ha : ∀ s ∈ aft, s.hops.length ≠ 1) (ht3 : t3 ≠ [])
+    (hinj : MacInj mac (net last2.ia).key)
+    (hFL1 : FL mac net core1 cd1 ts1 seg10 (e10 :: (mid1 ++ [last1])))
+    (hFL2 : FL mac net core2 cd2 ts2 seg20 (e20 :: (mid2 ++ [last2])))
+    (hsrc : src = e10.ia) (hsd : src ≠ dst)
+    (hmid1 : ∀ e ∈ mid1, e.ia ≠ src ∧ e.ia ≠ dst ∧ expired now ts1 e.hop.exp = false)
+    (hexp0 : expired now ts1 e10.hop.exp = false)
+    (hjoint1 : last1.ia = e20.ia) (hls1 : last1.ia ≠ src) (hld1 : last1.ia ≠ dst)
+    (hexpl1 : expired now ts1 last1.hop.exp = false) (hexp20 : expired now ts2 e20.hop.exp = false)
+    (hxlt1 : ∀ a b, InLT core1 cd1 a → EgLT core2 cd2 b → ltXover a b = true)
+    (hmid2 : ∀ e ∈ mid2, e.ia ≠ src ∧ e.ia ≠ dst ∧ expired now ts2 e.hop.exp = false)
+    (hjoint2 : last2.ia = e30.ia) (hld2 : last2.ia ≠ dst)
+    (hgen : macOk mac (net e30.ia).key i3 (hopOf e30.hop) = true)
+    (hr : InRange i3 (hopOf e30.hop)) (hr' : InRange i3' h3')
+    (hne : protectedOf i3' h3' ≠ protectedOf i3 (hopOf e30.hop))
+    (hone : h3'.mac = (hopOf e30.hop).mac ∨ inputOf i3' h3' = inputOf i3 (hopOf e30.hop))
+    (fuel : Nat) :
+    ∃ o tr, run mac net now src dst (fuel + 3 + mid1.length + mid2.length) src 0 .host
+        ⟨[], ⟨cd1, false, usedAt cd1 seg10 e10, ts1⟩, [], hopOf e10.hop,
+          (mid1.map fun e => hopOf e.hop) ++ [hopOf last1.hop],
+          ⟨⟨cd2, false, usedAt cd2 seg20 e20, ts2⟩,
+            hopOf e20.hop :: ((mid2.map fun e => hopOf e.hop) ++ [hopOf last2.hop])⟩ ::
+          ⟨i3', h3' :: t3⟩ :: aft⟩ [] =
+      .stopped last2.ia 0 (.ext (inF cd2 last2)) o tr := by
+  have ha3 : ∀ s ∈ (⟨i3', h3' :: t3⟩ : Seg) :: aft, s.hops.length ≠ 1 := by
+    intro s hs
+    simp only [List.mem_cons] at hs
+    rcases hs with rfl | hs
+    · cases t3 <;> simp_all
+    · exact ha s hs
+  have ha2 : ∀ s ∈ (⟨⟨cd2, false, usedAt cd2 seg20 e20, ts2⟩,
+      hopOf e20.hop :: ((mid2.map fun e => hopOf e.hop) ++ [hopOf last2.hop])⟩ : Seg) ::
+      ⟨i3', h3' :: t3⟩ :: aft, s.hops.length ≠ 1 := by
+    intro s hs
+    simp only [List.mem_cons] at hs
+    rcases hs with rfl | hs
+    · simp
+    · exact ha3 s (by simpa using hs)
+  have hpre := segment_prefix_run_after mac net now src dst hUp hSR core1 cd1 ts1 seg10 e10 mid1 last1
+    (hopOf last1.hop) [] _ ha2 hFL1 hsrc hsd hmid1 hexp0 (fuel + 2 + mid2.length)
+  rw [show fuel + 3 + mid1.length + mid2.length = fuel + 2 + mid2.length + 1 + mid1.length by omega, hpre]
+  have hcross1 := cross_prefix_run mac net now src dst hUp hSR core1 cd1 ts1 seg10 e10 mid1 last1
+    core2 cd2 ts2 seg20 e20 mid2 last2 (hopOf last2.hop) [] [] _
+    (hopOf e10.hop :: mid1.map fun e => hopOf e.hop)
+    (by simp) ha3 (by simp) hFL1 hFL2 hjoint1 hls1 hld1 hexpl1 hexp20 hxlt1 hmid2 (fuel + 1)
+    ((e10.ia, outF cd1 e10) :: ((firstOf mid1 last1).ia, inF cd1 (firstOf mid1 last1)) :: fTrace cd1 mid1 last1)
+  rw [show fuel + 2 + mid2.length = fuel + 1 + 1 + mid2.length by omega, hcross1]
+  have hdl : (last2.ia == dst) = false := by simp [hld2]
+  have hrej : (routerStep mac ⟨(net last2.ia).key, 0, (net last2.ia).ifaces⟩ now (.ext (inF cd2 last2))
+      (last2.ia == src) (last2.ia == dst)
+      ⟨[] ++ [⟨⟨cd1, false, usedSeg cd1 (Scion.SegID.extractBeta (Scion.SegID.updateSegID seg10 (pfx e10.hop.mac)) (sig mid1))
+          (hopOf last1.hop), ts1⟩, (hopOf e10.hop :: mid1.map fun e => hopOf e.hop) ++ [hopOf last1.hop]⟩],
+        ⟨cd2, false, Scion.SegID.extractBeta (Scion.SegID.updateSegID seg20 (pfx e20.hop.mac)) (sig mid2), ts2⟩,
+        hopOf e20.hop :: mid2.map (fun e => hopOf e.hop), hopOf last2.hop, [],
+        ⟨i3', h3' :: t3⟩ :: aft⟩).accepting = false := by
+    rw [hdl]
+    exact xover_tampered_rejected_gen mac ⟨(net last2.ia).key, 0, (net last2.ia).ifaces⟩ now _ _ hinj _ _ _ _
+      i3 i3' (hopOf e30.hop) h3' t3 aft rfl (by rw [hjoint2]; exact hgen) hr hr' hne hone
+  obtain ⟨o, ho⟩ := run_stops mac net now src dst fuel last2.ia 0 (.ext (inF cd2 last2)) _ _ hrej
+  exact ⟨o, _, ho⟩
+
 /-- an injective "MAC": the input itself, read as a number in base 257 with digits 1…256 -/
 def encMac : MacFn := fun _ inp => inp.foldr (fun b acc => b.toNat + 1 + 257 * acc) 0
 
